@@ -68,6 +68,13 @@ func (c *lcall) genortho(i int) lapack.GenOrtho {
 func (c *lcall) applyortho(i int) lapack.ApplyOrtho {
 	return flagByte(c.f[i], []lapack.ApplyOrtho{lapack.ApplyQ, lapack.ApplyP}, c.salt+i)
 }
+func (c *lcall) mtype3(i int) lapack.MatrixType {
+	return flagByte(c.f[i], []lapack.MatrixType{lapack.General, lapack.UpperTri, lapack.LowerTri}, c.salt+i)
+}
+func (c *lcall) sort2(i int) lapack.Sort {
+	return flagByte(c.f[i], []lapack.Sort{lapack.SortIncreasing, lapack.SortDecreasing}, c.salt+i)
+}
+func (c *lcall) boolean(i int) bool { return c.f[i] == 1 }
 
 // ltab passes the fields of a call to gonum in the argument order of the API. No arithmetic.
 var ltab = map[string]func(c *lcall){
@@ -183,6 +190,56 @@ var ltab = map[string]func(c *lcall){
 	"Dlarf": func(c *lcall) {
 		limpl.Dlarf(c.side(0), c.d[0], c.d[1], c.fl["x"], c.inc, 0.5, c.fl["c"], c.ld["c"], c.fl["work"])
 	},
+	// norm-type and auxiliary routines
+	"Dlansb": func(c *lcall) {
+		limpl.Dlansb(c.norm4(0), c.uplo(1), c.d[0], c.d[1], c.fl["a"], c.ld["a"], c.fl["work"])
+	},
+	"Dlantb": func(c *lcall) {
+		limpl.Dlantb(c.norm4(0), c.uplo(1), c.diag(2), c.d[0], c.d[1], c.fl["a"], c.ld["a"], c.fl["work"])
+	},
+	"Dlangt": func(c *lcall) { limpl.Dlangt(c.norm4(0), c.d[0], c.fl["dl"], c.fl["d"], c.fl["du"]) },
+	"Dlanst": func(c *lcall) { limpl.Dlanst(c.norm4(0), c.d[0], c.fl["d"], c.fl["e"]) },
+	"Dlangb": func(c *lcall) {
+		limpl.Dlangb(c.norm4(0), c.d[0], c.d[1], c.d[2], c.d[3], c.fl["a"], c.ld["a"])
+	},
+	"Dlanhs": func(c *lcall) { limpl.Dlanhs(c.norm4(0), c.d[0], c.fl["a"], c.ld["a"], c.fl["work"]) },
+	"Dlascl": func(c *lcall) { limpl.Dlascl(c.mtype3(0), 0, 0, 2, 1, c.d[0], c.d[1], c.fl["a"], c.ld["a"]) },
+	"Dlaswp": func(c *lcall) {
+		limpl.Dlaswp(c.d[0], c.fl["a"], c.ld["a"], c.d[1], c.d[2], c.iv["ipiv"], c.inc)
+	},
+	"Dlapmt": func(c *lcall) { limpl.Dlapmt(c.boolean(0), c.d[0], c.d[1], c.fl["a"], c.ld["a"], c.iv["k"]) },
+	"Dlapmr": func(c *lcall) { limpl.Dlapmr(c.boolean(0), c.d[0], c.d[1], c.fl["a"], c.ld["a"], c.iv["k"]) },
+	"Drscl":  func(c *lcall) { limpl.Drscl(c.d[0], 2, c.fl["x"], c.inc) },
+	"Dlassq": func(c *lcall) { limpl.Dlassq(c.d[0], c.fl["x"], c.inc, 0, 1) },
+	"Dlasrt": func(c *lcall) { limpl.Dlasrt(c.sort2(0), c.d[0], c.fl["d"]) },
+	"Dgeql2": func(c *lcall) { limpl.Dgeql2(c.d[0], c.d[1], c.fl["a"], c.ld["a"], c.fl["tau"], c.fl["work"]) },
+	"Dgerq2": func(c *lcall) { limpl.Dgerq2(c.d[0], c.d[1], c.fl["a"], c.ld["a"], c.fl["tau"], c.fl["work"]) },
+	"Dgehd2": func(c *lcall) {
+		limpl.Dgehd2(c.d[0], c.d[1], c.d[2], c.fl["a"], c.ld["a"], c.fl["tau"], c.fl["work"])
+	},
+	"Dsytd2": func(c *lcall) {
+		limpl.Dsytd2(c.uplo(0), c.d[0], c.fl["a"], c.ld["a"], c.fl["d"], c.fl["e"], c.fl["tau"])
+	},
+	"Dlauu2": func(c *lcall) { limpl.Dlauu2(c.uplo(0), c.d[0], c.fl["a"], c.ld["a"]) },
+	"Dlauum": func(c *lcall) { limpl.Dlauum(c.uplo(0), c.d[0], c.fl["a"], c.ld["a"]) },
+	"Dpttrf": func(c *lcall) { limpl.Dpttrf(c.d[0], c.fl["d"], c.fl["e"]) },
+	"Dpttrs": func(c *lcall) { limpl.Dpttrs(c.d[0], c.d[1], c.fl["d"], c.fl["e"], c.fl["b"], c.ld["b"]) },
+	"Dptcon": func(c *lcall) { limpl.Dptcon(c.d[0], c.fl["d"], c.fl["e"], 1, c.fl["work"]) },
+	"Dgerqf": func(c *lcall) { limpl.Dgerqf(c.d[0], c.d[1], c.fl["a"], c.ld["a"], c.fl["tau"], c.fl["work"], c.lwork) },
+	"Dorgql": func(c *lcall) {
+		limpl.Dorgql(c.d[0], c.d[1], c.d[2], c.fl["a"], c.ld["a"], c.fl["tau"], c.fl["work"], c.lwork)
+	},
+	"Dorg2l": func(c *lcall) { limpl.Dorg2l(c.d[0], c.d[1], c.d[2], c.fl["a"], c.ld["a"], c.fl["tau"], c.fl["work"]) },
+	"Dorgr2": func(c *lcall) { limpl.Dorgr2(c.d[0], c.d[1], c.d[2], c.fl["a"], c.ld["a"], c.fl["tau"], c.fl["work"]) },
+	"Dormr2": func(c *lcall) {
+		limpl.Dormr2(c.side(0), c.trans(1), c.d[0], c.d[1], c.d[2], c.fl["a"], c.ld["a"], c.fl["tau"], c.fl["c"], c.ld["c"], c.fl["work"])
+	},
+	"Dpbtf2": func(c *lcall) { limpl.Dpbtf2(c.uplo(0), c.d[0], c.d[1], c.fl["a"], c.ld["a"]) },
+	"Dpbcon": func(c *lcall) {
+		limpl.Dpbcon(c.uplo(0), c.d[0], c.d[1], c.fl["a"], c.ld["a"], 1, c.fl["work"], c.iv["iwork"])
+	},
+	"Dsterf": func(c *lcall) { limpl.Dsterf(c.d[0], c.fl["d"], c.fl["e"]) },
+	"Dlarfg": func(c *lcall) { limpl.Dlarfg(c.d[0], 3, c.fl["x"], c.inc) },
 }
 
 // named is a [name, len] or [name, len, ld] triple printed by the specification.
@@ -615,6 +672,23 @@ var lwtab = map[string]struct {
 	"Dtrcon": {"Trcon", func(c *lcall) {
 		lapack64.Trcon(c.norm2(0), blas64.Triangular{Uplo: c.uplo(1), Diag: c.diag(2), N: c.d[0], Data: c.fl["a"], Stride: c.ld["a"]}, c.fl["work"], c.iv["iwork"])
 	}},
+	"Dlansy": {"Lansy", func(c *lcall) {
+		lapack64.Lansy(c.norm4(0), blas64.Symmetric{Uplo: c.uplo(1), N: c.d[0], Data: c.fl["a"], Stride: c.ld["a"]}, c.fl["work"])
+	}},
+	"Dlansb": {"Lansb", func(c *lcall) {
+		lapack64.Lansb(c.norm4(0), blas64.SymmetricBand{Uplo: c.uplo(1), N: c.d[0], K: c.d[1], Data: c.fl["a"], Stride: c.ld["a"]}, c.fl["work"])
+	}},
+	"Dlantb": {"Lantb", func(c *lcall) {
+		lapack64.Lantb(c.norm4(0), blas64.TriangularBand{Uplo: c.uplo(1), Diag: c.diag(2), N: c.d[0], K: c.d[1], Data: c.fl["a"], Stride: c.ld["a"]}, c.fl["work"])
+	}},
+	"Dlangb": {"Langb", func(c *lcall) {
+		lapack64.Langb(c.norm4(0), blas64.Band{Rows: c.d[0], Cols: c.d[1], KL: c.d[2], KU: c.d[3], Data: c.fl["a"], Stride: c.ld["a"]})
+	}},
+	"Dlangt": {"Langt", func(c *lcall) {
+		lapack64.Langt(c.norm4(0), lapack64.Tridiagonal{N: c.d[0], DL: c.fl["dl"], D: c.fl["d"], DU: c.fl["du"]})
+	}},
+	"Dlapmt": {"Lapmt", func(c *lcall) { lapack64.Lapmt(c.boolean(0), c.general("a", c.d[0], c.d[1]), c.iv["k"]) }},
+	"Dlapmr": {"Lapmr", func(c *lcall) { lapack64.Lapmr(c.boolean(0), c.general("a", c.d[0], c.d[1]), c.iv["k"]) }},
 }
 
 func (c *lcall) general(name string, rows, cols int) blas64.General {
